@@ -183,7 +183,7 @@ def derived_cases(tier, seed):
             for nsaved in (2, 3, 4, 5, 6, 277, 385):
                 out.append(("imec", kind, stream, nsaved))
             out.append(("imec", kind, stream, -5))          # five channels saved without the sync word
-    for mn, ma, xa, dw in itertools.product((0, 1, 2), (0, 1, 2), (0, 1, 2), (0, 1)):
+    for mn, ma, xa, dw in itertools.product((0, 1, 2), (0, 1, 2), (0, 1, 2), (0, 1, 2, 3)):      # up to three 16-bit digital words
         if mn + ma + xa + dw:
             out.append(("nidq", mn, ma, xa, dw))
     return out
